@@ -22,7 +22,6 @@ Fixpoint wf_ops (cur : list cname) (single : bool) (ops : list op) : Prop :=
   | [] => True
   | OCols ks :: r => single = false /\ incl ks cur /\ wf_ops ks false r
   | OCol k :: r => single = false /\ In k cur /\ wf_ops [k] true r
-  | OFilter _ _ _ :: r => single = false /\ wf_ops cur single r
   | _ :: r => wf_ops cur single r
   end.
 
@@ -101,7 +100,7 @@ Proof.
         intros r Hr. rewrite pipe_app, Hm by assumption. unfold apply_map. cbn [map]. f_equal. now apply index_of_nth.
       * cbn [src vis slices spec_filters spec_columns spec_slices] in *. split; [exact I1|]. split; [exact I2|]. split; [exact I3|exact I4].
     + (* filter: evaluated on the source rows, by position in the header *)
-      destruct Hw as (Hs & Hw). rewrite Hs in E1. rewrite Hs in Hw. rewrite Hh in E1.
+      rewrite Hh in E1.
       destruct (index_of c hd) as [col|] eqn:Ec; [|discriminate]. cbn [obind] in E1.
       destruct (match rhs with OConst z => Some (inl z) | OColumn c2 => option_map inr (index_of c2 hd) end) as [f|] eqn:Er;
         [|discriminate]. cbn [obind] in E1. injection E1 as <-.
@@ -175,7 +174,7 @@ Proof.
   - destruct (single d); [discriminate|].
     destruct (match index_of k (vis d) with Some i => Some i | None => index_of k (header d) end); [|discriminate].
     now injection H as <-.
-  - destruct (single d); [discriminate|]. destruct (index_of c (header d)); [|discriminate]. cbn [obind] in H.
+  - destruct (index_of c (header d)); [|discriminate]. cbn [obind] in H.
     destruct (match rhs with OConst z => Some (inl z) | OColumn c2 => option_map inr (index_of c2 (header d)) end); [|discriminate].
     now injection H as <-.
   - now injection H as <-.
@@ -194,7 +193,7 @@ Proof.
   assert (Hw : wf_ops hd false ops).
   { unfold ops. clear Ha. induction clauses as [|c cl IH]; cbn [map app wf_ops].
     - repeat split; try assumption; exact I.
-    - split; [reflexivity|exact IH]. }
+    - exact IH. }
   rewrite (normal_form hd rows ops d Hnd Hrows Hw Ha). unfold spec_nf, ops.
   assert (E1 : forall r, spec_filters hd (map (fun c => OFilter (fst (fst c)) (snd (fst c)) (snd c)) clauses ++ [OCols cols; OSlice range]) r =
                         forallb (fun c => filt_by_name hd (fst (fst c)) (snd (fst c)) (snd c) r) clauses).
